@@ -41,7 +41,7 @@ TR = 'chainables.transform'
 
 
 def run(ctx: Ctx):
-  for r in (r1, r2, r3, r4, r5, r6, r9):
+  for r in (r1, r2, r3, r4, r5, r6, r9, r11):
     ctx.guard(r)
   from mlmverif.props import c09
   ctx.include('R-C12-10', 'error skipping configured on a data source survives a'
@@ -183,6 +183,64 @@ def r9(ctx: Ctx):
   ctx.ok(rule, None, 'positive control `raise (stored or new) from None` recognised',
          where='mlmverif/props/c12.py')
   ctx.floor(rule, 1, n + 1)
+
+
+def r11(ctx: Ctx):
+  rule = 'R-C12-11'
+  ctx.rule(rule, '"still aligned with its own inputs ... regardless of operator'
+           ' kind": processed_with_inputs pairs every output slot — a value or'
+           ' the skip marker — with one recited input, so the recording'
+           ' iterator must buffer exactly one entry for EVERY next() that does'
+           ' not end the stream, also when reading the input itself raises:'
+           ' otherwise a failing input yields a skip marker with nothing to'
+           ' pair it with and assign/filter/sink die with IndexError("No'
+           ' element left.") where apply skips the record')
+  fi = ctx.repo.func(IU, '_TeeIterator.__next__')
+  g = cfgm.cfg_of(fi.node)
+  reads = [n for n in g.nodes if any(isinstance(c, ast.Call) and unparse(c.func) == 'next'
+                                     and c.args and unparse(c.args[0]) == 'self._iterator'
+                                     for x in cfgm.node_exprs(n) for c in ast.walk(x))]
+  if len(reads) != 1:
+    raise AnalysisError(f'{rule}: expected one next(self._iterator) in _TeeIterator.__next__')
+  rd = reads[0]
+  app = lambda n: any(isinstance(c, ast.Call) and unparse(c.func) == 'self._buffer.append'
+                      for x in cfgm.node_exprs(n) for c in ast.walk(x))
+  n = 0
+  # normal continuation: one append before the value is returned
+  for s_, lab in rd.succ:
+    if lab in ('exc', 'close'):
+      continue
+    n += 1
+    if app(s_) or g.must_pass(s_, [g.exit_ret], app, cfgm.only_normal) is None:
+      ctx.ok(rule, fi, 'a value read is buffered before it is returned', rd.ast)
+    else:
+      ctx.fail(rule, fi, '_TeeIterator.__next__: buffer every value read', 'a value is returned without being recorded for the recital', node=rd.ast)
+  # failing read: a placeholder entry keeps the recital aligned
+  n += 1
+  bad = None
+  for s_, lab in rd.succ:
+    if lab != 'exc':
+      continue
+    if s_.kind == 'handler' and s_.ast is not None and 'StopIteration' in unparse(getattr(s_.ast, 'type', None) or ast.Constant(None)):
+      continue  # end of stream: nothing to pair
+    if s_ is g.exit_exc:
+      bad = ['the exception leaves __next__ directly']
+      continue
+    w = g.must_pass(s_, [g.exit_exc, g.exit_ret], app, cfgm.no_close)
+    if w is not None:
+      bad = w
+  if bad is None:
+    ctx.ok(rule, fi, 'a failing read still buffers one (placeholder) entry', rd.ast)
+  else:
+    ctx.fail(rule, fi, '_TeeIterator.__next__: one buffer entry also when the read raises',
+             'when next(self._iterator) raises (a failing record of the data'
+             ' source) nothing is buffered, but with error skipping the'
+             ' operator chain turns that failure into a skip marker in the'
+             ' output stream: the marker is paired with the NEXT recital, which'
+             ' does not exist yet — IndexError("No element left.") ends the'
+             ' pipeline for assign/filter/sink although skipping is enabled',
+             node=rd.ast, witness=bad[-6:])
+  ctx.floor(rule, 2, n)
 
 
 # -- return-kind inference ----------------------------------------------------
@@ -514,6 +572,11 @@ from mlmverif.selfcheck import B, OK  # noqa: E402
 _F = 'chainables/tree_fns.py'
 _U = 'utils/iter_utils.py'
 VARIANTS = [
+    B('revert-tee-placeholder-on-failing-read', 'utils/iter_utils.py',
+      '    except Exception:\n      # Keeps the recital aligned with the outputs when an input fails: the\n      # failure takes up a slot (e.g., a skipped one) in the output iterator.\n      self._buffer.append(None)\n      raise\n',
+      '', 'R-C12-11'),
+    B('tee-returns-unbuffered-value', 'utils/iter_utils.py',
+      '    self._buffer.append(value)\n    return value', '    return value', 'R-C12-11'),
     B('queue-reraises-stored-error-from-none', 'utils/iter_utils.py',
       '          raise self.exception or StopIteration(*self.returned)\n        if self.enqueue_done:',
       '          raise (self.exception or StopIteration(*self.returned)) from None\n        if self.enqueue_done:',
